@@ -130,14 +130,14 @@ func runC10InBubble(c c10Case) (out kit.Outcome) {
 			cl.Released = true
 			w.mu.Unlock()
 			w.wg.Add(1)
-			go func() { defer w.wg.Done(); complete(cl.L, oc) }()
+			go func() { defer w.wg.Done(); defer notePanic(); complete(cl.L, oc) }()
 		} else if a-h < len(waiters) {
 			w.start(waiters[a-h])
 		} else if k := a - h - len(waiters); k < len(c.Cancels) && c.Cancels[k] < len(waiters) {
 			wt := waiters[c.Cancels[k]]
 			cancelled[wt.ID] = true
 			w.wg.Add(1)
-			go func() { defer w.wg.Done(); wt.cancel() }()
+			go func() { defer w.wg.Done(); defer notePanic(); wt.cancel() }()
 		}
 	}
 	synctest.Wait()
